@@ -8,6 +8,27 @@ ROOT = os.path.dirname(os.path.dirname(os.path.abspath(__file__)))
 
 # id -> (category, technique, level text, level note, design ref)
 CHECKS = {
+    'C11': ('exploration',
+            'Hypothesis-generated namespace programs compared step by step '
+            'with a namespace reference model (own non-regex LIST matcher, '
+            'own modified-UTF-7 codec)',
+            'Programs of <= 25 commands (CREATE, DELETE, RENAME incl. '
+            'inferiors and INBOX, SUBSCRIBE, UNSUBSCRIBE, LIST and LSUB with '
+            'reference/pattern pairs from a pattern grammar, STATUS, SELECT + '
+            'content read-back, APPEND) over names of depth <= 3 with '
+            'wildcard, quote, backslash, newline, non-ASCII and INBOX-case '
+            'components on dict, maildir "++" and maildir "fs". LIST: the '
+            'selectable entries must be exactly the existing matching names, '
+            '\\Noselect entries must be matching proper ancestors; LSUB: '
+            'subscribed+existing+matching must be listed, nothing '
+            'unsubscribed; RENAME keeps messages, UIDs and UIDVALIDITY; '
+            'error paths must answer NO and change nothing. Sampled.',
+            'RFC latitude is encoded as sets of allowed outcomes (implied '
+            'superiors, DELETE with inferiors, SUBSCRIBE of missing names, '
+            'RENAME INBOX refusal); INBOX counts as permanently subscribed '
+            '(pinned by the repository tests); maildir under fsmon '
+            'confinement.',
+            'DESIGN.md section 3, C11'),
     'C08': ('exploration',
             'exhaustive enumeration of short adversarial names + Hypothesis '
             'names; filesystem-call tracing with confinement (os/builtins/io '
